@@ -585,6 +585,42 @@ def check_C13(tier, seed, res, builtins, log):
               ('diff', ('any',), ('alt', ('bi', 'XID_Continue'), ('bi', 'whitespace')))]
     if tier != 'quick':
         combos += [('diff', ('any',), ('bi', nm)) for nm in order if len(preds[nm]) > 9][:12]
+    # differences `$$a # $$b` of two built-ins, chosen so that every way a range of b can lie relative to the ranges of a occurs: b's range
+    # inside one range of a, covering one or several ranges of a entirely, overhanging a range of a on the left / on the right INTO the next
+    # range(s) of a, sharing an end point with it, touching it. (Which pairs show which geometry is computed from the tables themselves.)
+    def geometry(ra, rb):
+        cats = set()
+        for (bs, be) in rb:
+            hit = [(s_, e_) for (s_, e_) in ra if not (e_ < bs or be < s_)]
+            if not hit:
+                continue
+            first, last = hit[0], hit[-1]
+            cats.add('n%d' % min(len(hit), 3))
+            cats.add('L' + ('in' if bs > first[0] else 'eq' if bs == first[0] else 'out'))
+            cats.add('R' + ('in' if be < last[1] else 'eq' if be == last[1] else 'out'))
+            if len(hit) >= 2 and bs > first[0]:
+                cats.add('starts-inside-runs-into-next')
+            if len(hit) >= 2 and be < last[1]:
+                cats.add('ends-inside-after-covering')
+            if bs == first[1] or be == last[0]:
+                cats.add('one-point-overlap')
+        return cats
+    need, chosen = {}, []
+    names13 = [nm for nm in order]
+    pairs13 = [(a_, b_) for a_ in names13 for b_ in names13 if a_ != b_]
+    geo = {pr_: geometry(preds[pr_[0]], preds[pr_[1]]) for pr_ in pairs13}
+    allcats = set().union(*geo.values()) if geo else set()
+    for cat in sorted(allcats):
+        have = [pr_ for pr_ in chosen if cat in geo[pr_]]
+        cands = sorted((pr_ for pr_ in pairs13 if cat in geo[pr_] and pr_ not in chosen), key=lambda pr_: (len(preds[pr_[0]]) + len(preds[pr_[1]]), pr_))
+        for pr_ in cands[: max(0, 2 - len(have))]:
+            chosen.append(pr_)
+    for (a_, b_) in chosen[: (10 if tier == 'quick' else 40)]:
+        try:
+            if class_of(('diff', ('bi', a_), ('bi', b_)), {}, preds):
+                combos.append(('diff', ('bi', a_), ('bi', b_)))
+        except Exception:  # noqa
+            pass
     for i, ce in enumerate(combos):
         try:
             ivs = class_of(ce, {}, preds)
